@@ -16,6 +16,7 @@ def programs(tier, seed):
     P += families.fam_innode_partial_and_multi_input()
     P += families.fam_output_designation()
     P += families.fam_twin_operators()
+    P += families.fam_same_name_edge()
     P += families.fam_mixed_nodes(seed, n=8 if tier == 'quick' else 60)
     P += families.fam_names(seed)
     P += families.fam_hierarchy()
